@@ -37,6 +37,9 @@ Proof.
   injection H as ->. apply decode_lib in E. discriminate.
 Qed.
 
+Lemma hang_not_lib t bs : decode_fuel (S (length bs)) t bs = DOutOfFuel -> ~ lib_dec (decode t bs).
+Proof. intros E H. unfold decode in H. rewrite E in H. destruct H; discriminate. Qed.
+
 (* types without a length-prefixed array: every decode terminates, whatever the element types *)
 Lemma no_prefix_hprogress : forall t, has_prefix t = false -> hprogress t = true.
 Proof.
@@ -78,19 +81,28 @@ Proof.
   - exact Hb.
 Qed.
 
+Lemma announced_width t bs :
+  match t with TStr _ _ _ | TStringN => False | _ => True end ->
+  announced t bs = option_map Z.of_nat (width_of t).
+Proof. destruct t; intros H; try contradiction; reflexivity. Qed.
+
+Lemma no_short_read_width t bs v rest k fuel :
+  match t with TStr _ _ _ | TStringN => False | _ => True end ->
+  be_ok t = true -> decode_fuel fuel t bs = DOk v rest -> announced t bs = Some k -> k <= zlen bs.
+Proof.
+  intros Ht Hb Hd Ha. rewrite (announced_width t bs Ht) in Ha.
+  destruct (width_of t) as [w|] eqn:Ew; [|discriminate]. injection Ha as <-.
+  pose proof (be_ok_width_strict t w Hb Ew) as Hs. rewrite (strict_width_of t Hs) in Ew. injection Ew as <-.
+  pose proof (strict_decode t Hs fuel bs) as H. rewrite Hd in H. unfold sshape in H. unfold zlen. lia.
+Qed.
+
 Theorem no_short_read t bs v rest k :
   be_ok t = true -> decode t bs = Ok (v, rest) -> announced t bs = Some k -> k <= zlen bs.
 Proof.
   intros Hb Hd Ha. apply decode_ok_inv in Hd.
-  destruct t; try (exact (str_no_short _ _ _ _ _ _ _ _ Hd Ha)); try (exact (stringn_no_short _ _ _ _ _ Hd Ha));
-    try (cbn in Ha; discriminate).
-  all: match goal with |- _ => idtac end.
-  all: try match type of Ha with announced ?T _ = _ =>
-         assert (Hs : strict T = true)
-           by (destruct (width_of T) as [w|] eqn:Ew; [exact (be_ok_width_strict T w Hb Ew)|unfold announced in Ha; rewrite Ew in Ha; discriminate]);
-         rewrite (strict_announced T bs Hs) in Ha; injection Ha as <-;
-         pose proof (strict_decode T Hs (S (length bs)) bs) as H; rewrite Hd in H; cbn [sshape] in H; unfold zlen; lia
-       end.
+  destruct t eqn:Et; try (refine (no_short_read_width _ _ _ _ _ _ _ Hb Hd Ha); exact I).
+  - exact (str_no_short _ _ _ _ _ _ _ _ Hd Ha).
+  - exact (stringn_no_short _ _ _ _ _ Hd Ha).
 Qed.
 
 Theorem strict_consumes_width t bs v rest :
